@@ -31,6 +31,14 @@ func ParseInteger(value string) *int64 {
 	return nil
 }
 
+// Helper function to parse length / item-count validation values: a non-negative integer
+func ParseNonNegativeInteger(value string) *int64 {
+	if v := ParseInteger(value); v != nil && *v >= 0 {
+		return v
+	}
+	return nil
+}
+
 // Helper function to parse integer validation values
 func ParseUInteger(value string) *uint64 {
 	if v, err := strconv.ParseUint(value, 10, 64); err == nil {
